@@ -48,18 +48,11 @@ type childLine struct {
 	Rejected string   `json:"rejected,omitempty"`
 }
 
-var outsideTierA int
-
 // tierAPools builds the pool list of a run: corpus, then random.
 func tierAPools(rng *vh.RNG, n int) []*Pool {
 	ps := corpusPools()
 	for len(ps) < n {
-		p := randomPool(rng)
-		if !p.insideTierA() {
-			outsideTierA++ // known finding project-reprojects-memoised-attribute: witness design only
-			continue
-		}
-		ps = append(ps, p)
+		ps = append(ps, randomPool(rng))
 	}
 	return ps
 }
@@ -417,10 +410,6 @@ func runTierA(self, out string, pools []*Pool, rng *vh.RNG, res *vh.Result) (cas
 					in["projected"] = ob.Tree
 					failSig(res, "project-accepts-undefined-view", fmt.Sprintf("expr.Project(%s, %q) returned a type although the view is not defined", pr.Type, pr.View), in)
 				}
-			case ob.Err != "" && p.Witness != "" && strings.Contains(ob.Err, "cannot be computed: unknown view"):
-				in["error"] = ob.Err
-				failSig(res, p.Witness, fmt.Sprintf("expr.Project(%s, %q) fails on an accepted design: %s (a memoised attribute that carries the view meta of another attribute is projected again through the aliasing of the copies expr.Project makes)", pr.Type, pr.View, ob.Err), in)
-				continue // the memo model has no aliasing: no correspondence case
 			case ob.Err != "":
 				in["error"] = ob.Err
 				failSig(res, "project-fails-on-defined-view", fmt.Sprintf("expr.Project(%s, %q) failed: %s", pr.Type, pr.View, ob.Err), in)
@@ -447,7 +436,6 @@ func runTierA(self, out string, pools []*Pool, rng *vh.RNG, res *vh.Result) (cas
 		}
 	}
 	res.Extra["tierA_distinct"] = len(distinct)
-	res.Dist["tierA_random_pools_outside_envelope_skipped"] = outsideTierA
 	res.Extra["tierA_child_restarts"] = restarts
 	return
 }
